@@ -2,7 +2,9 @@
 options (gonzalez; quadrature with a tight energyTol) free motion conserves KE + W over arbitrarily many steps,
 for any converging step size, across step-size changes, rollback and failed-then-retried Newton steps.
 Invariants on visited states: W = 0 and zero internal force in the reference configuration.
-Stress/tangent derivative consistency and objectivity are pure statements and are NOT decided here.
+On the states the trajectories visit, the system of a Newton iteration is checked to be the derivative of the residual
+(scheme, stress option and previous state included).  The law-level derivative consistency and objectivity are pure
+statements and are NOT decided here.
 """
 
 import numpy as np
@@ -51,7 +53,8 @@ class HyperWorld(World):
         mesh = (["quad4_a", "tri3_a", "quad4_b", "tri6_a"] if dim == 2 else ["hexa8_a"])[int(rng.integers(4 if dim == 2 else 1))]
         return {
             "params": p, "mesh": mesh, "rho": float(np.round(rng.uniform(0.5, 3), 3)), "clamped": bool(rng.random() < 0.7),
-            "stress": ["gonzalez", "gonzalez", "quadrature"][int(rng.integers(3))], "preload": float(np.round(rng.uniform(-0.15, 0.15), 4)),
+            "stress": ["gonzalez", "gonzalez", "quadrature", "quadrature_fixed", "quadrature_fixed", "pointwise"][int(rng.integers(6))],
+            "nPoints": [1, 1, 2, 3, 5][int(rng.integers(5))], "preload": float(np.round(rng.uniform(-0.15, 0.15), 4)),
             "kick": float(np.round(rng.uniform(0, 0.5), 3)), "dt": float(np.round(10 ** rng.uniform(-2.3, -0.7), 5)),
             "nops": int(rng.integers(10, 31 if tier == "quick" else 61)), "faults": bool(faults),
         }
@@ -80,6 +83,10 @@ class HyperWorld(World):
         self.Escale = None
         self.saved = []
         self.steps = 0
+        # which configurations conserve KE + W exactly: the discrete gradient, the adaptive strain-path rule (to its
+        # tolerance) and any fixed strain-path rule when dW/de is linear in the strain (Saint-Venant-Kirchhoff: a rule
+        # with one point or more integrates a linear integrand exactly)
+        self.conserving = cfg["stress"] in ("gonzalez", "quadrature") or (cfg["stress"] == "quadrature_fixed" and cfg["params"]["law"] == "SaintVenantKirchhoff")
         try:
             self._reference_state_checks()
             self._preload_and_release()
@@ -123,10 +130,16 @@ class HyperWorld(World):
         sim = self.sim
         with self.ctx.sut():
             sim.Solver_Set_Hyperbolic_Algorithm(dt, algo=AlgoType.midpoint)
-            if self.cfg["stress"] == "gonzalez":
+            st = self.cfg["stress"]
+            if st == "gonzalez":
                 sim.Solver_Set_Stress(sim.StressType.gonzalez)
+            elif st == "quadrature":
+                # adaptive rule: nPoints is the starting level of the nested chain
+                sim.Solver_Set_Stress(sim.StressType.quadrature, nPoints=3 if self.cfg.get("nPoints", 3) > 1 else 1, energyTol=1e-10)
+            elif st == "quadrature_fixed":
+                sim.Solver_Set_Stress(sim.StressType.quadrature, nPoints=self.cfg.get("nPoints", 3))
             else:
-                sim.Solver_Set_Stress(sim.StressType.quadrature, nPoints=3, energyTol=1e-10)
+                sim.Solver_Set_Stress(sim.StressType.pointwise)
         self.dt = dt
 
     def _preload_and_release(self):
@@ -167,7 +180,7 @@ class HyperWorld(World):
 
     # ------------------------------------------------------------------
     def gen_op(self, rng, frng):
-        w = {"step": 10, "set_dt": 1.5, "save_iter": 1.0, "rollback": 0.6 if self.saved else 0}
+        w = {"step": 10, "set_dt": 1.5, "save_iter": 1.0, "rollback": 0.6 if self.saved else 0, "tangent": 2.0 if self.cfg["stress"] != "quadrature" else 0}
         names = sorted(w)
         pr = np.array([w[k] for k in names], dtype=float)
         name = names[int(rng.choice(len(names), p=pr / pr.sum()))]
@@ -180,6 +193,8 @@ class HyperWorld(World):
             op["dt"] = float(np.round(self.dt * 10 ** rng.uniform(-0.5, 0.5), 6))
         elif name == "rollback":
             op["i"] = int(rng.integers(len(self.saved)))
+        elif name == "tangent":
+            op.update(aseed=int(rng.integers(1 << 30)), theta=float(np.round(rng.uniform(0.1, 1.5), 3)), _mut=False)
         return op
 
     def _one_step(self, fault):
@@ -247,6 +262,9 @@ class HyperWorld(World):
                 ctx.checked()
             return "ok"
 
+        if name == "tangent":
+            return self._tangent_check(op)
+
         if name == "step":
             for k in range(op["n"]):
                 self._one_step(op.get("fault") if (k == 0 and self.cfg.get("faults")) else None)
@@ -263,12 +281,68 @@ class HyperWorld(World):
                 E, KE, W = self._energy()
                 if not np.isfinite(E):
                     raise Violation("energy-not-finite", "KE + W is NaN/Inf after a converged step")
-                if abs(E - self.E0) > 1e-5 * self.Escale:
+                if self.conserving and abs(E - self.E0) > 1e-5 * self.Escale:
                     raise Violation("energy-not-conserved", f"[{self.cfg['params']['law']}, {self.cfg['stress']}, dt {self.dt}, {'clamped' if self.cfg['clamped'] else 'free'}] KE + W drifted from {self.E0:.10e} to {E:.10e} after {self.steps} steps (scale {self.Escale:.3e})")
                 ctx.checked()
             return "ok"
 
         raise ValueError(name)
+
+    TRIAL_ATTR = "_Simu__current_newton_raphson_solution"
+
+    def _tangent_check(self, op):
+        """The system a Newton iteration solves, A = coefK K + coefC C + coefM M with right-hand side -R(u), at a trial
+        u_{n+1} away from u_n (so that the step increment is finite) with the scheme, stress option and previous state
+        the trajectory has reached: A d must be the directional derivative of R (central difference)."""
+        sim, ctx = self.sim, self.ctx
+        if not hasattr(sim, self.TRIAL_ATTR):
+            ctx.probe("tangent_check_unavailable")
+            return "skip"
+        key = simlib.pt_key(self.pt)
+        u_n, v_n, a_n = simlib.get_state(sim)[key]
+        rng = arr_rng(op["aseed"])
+        n = u_n.size
+        with ctx.sut():
+            known = np.asarray(sim.Bc_dofs_Dirichlet(self.pt), dtype=int)
+        free = np.setdiff1d(np.arange(n), known)
+        trial = u_n + op["theta"] * self.dt * v_n + rng.normal(size=n) * 2e-3
+        trial[known] = u_n[known]
+        d = np.zeros(n)
+        d[free] = rng.uniform(-1, 1, free.size)
+        h = 1e-6
+        old = getattr(sim, self.TRIAL_ATTR)
+
+        def system(u):
+            setattr(sim, self.TRIAL_ATTR, u.copy())
+            sim.Need_Update()
+            K, C, M, F = sim.Assembly(self.pt)
+            return K, C, M, -F.toarray().ravel()
+
+        try:
+            with ctx.sut():
+                cK, cC, cM = sim._Solver_Get_K_C_M_coefs_for_time_scheme()
+                K, C, M, R0 = system(trial)
+                _, _, _, Rp = system(trial + h * d)
+                _, _, _, Rm = system(trial - h * d)
+        except SutError as e:
+            if isinstance(e.exc, AssertionError):
+                ctx.probe("tangent_trial_state_rejected")
+                return "rejected"  # det F < 0 at the trial state
+            raise Violation("assembly-raises", f"assembling the Newton system at a trial state raised {e}", e.site)
+        finally:
+            setattr(sim, self.TRIAL_ATTR, old)
+            sim.Need_Update()
+        A = cK * K + cC * C + cM * M
+        Ad = (A @ d)[free]
+        fd = ((Rp - Rm) / (2 * h))[free]
+        scale = max(refs.maxabs((abs(A) @ np.abs(d))[free]), 1e-300)
+        noise = 1e-14 * max(refs.maxabs(R0), refs.maxabs(Rp)) / h
+        err = refs.maxabs(Ad - fd)
+        ctx.reached("tangent_defect_decade", int(np.floor(np.log10(max(err / (1e-5 * scale + 100 * noise), 1e-30)))))
+        if not err <= 1e-5 * scale + 100 * noise:
+            raise Violation("tangent-not-derivative-of-residual", f"[{self.cfg['params']['law']}, {self.cfg['stress']} nPoints {self.cfg.get('nPoints')}, dt {self.dt}] A.d differs from the central difference of the residual by {err:.3e} (scale {scale:.3e})")
+        ctx.checked()
+        return "ok"
 
     def _W_of(self, u):
         sim = self.sim
